@@ -317,15 +317,16 @@ class AstToSqlVisitor(visitor.NodeVisitor):
         Transform a node into a pattern usable in `LIKE` clauses.
         :meta private:
         """
-        if not isinstance(arg, ast._Literal) or isinstance(arg, ast.List):
-            # Any expression: concatenate the wildcards around its value.
+        if not isinstance(arg, ast.String):
+            # Any other expression (including `null`, which has no text of its
+            # own): concatenate the wildcards around its value.
             res = self._visit_operand(arg, _PREC_ADDITIVE, or_equal=True)
             if prefix:
                 res = f"'{prefix}' || " + res
             if suffix:
                 res = res + f" || '{suffix}'"
         else:
-            raw = str(arg.val)  # type: ignore
+            raw = arg.val
             # LIKE wildcards in the literal must match themselves:
             res = raw.replace("\\", "\\\\").replace("%", "\\%").replace("_", "\\_")
             escaped = res != raw
